@@ -69,6 +69,32 @@ def oracle(ctx, case, steps, ctor_err):
             ctx.feature('hydrogens', sum(1 for _, d in st['fine_graph'].nodes(data=True) if d.get('element') == 'H'))
 
 
+def ez_unit_case(rng):
+    """units whose cis/trans mark stands directly in front of the closing descriptor ('[<]O/C=C/[>]'): the mark's second
+    end lies in the NEXT unit; every atom of every unit keeps exactly its own hydrogens"""
+    heads = ['O', 'N(C)', 'C(F)(F)', 'S', 'C', 'C(C)', 'N']
+    if rng.random() < 0.5:
+        n = rng.randint(2, 4)
+        u = rng.choice(heads)
+        s = '{[#U]|%d}.{#U=[<]%s/C=C/[>]}' % (n, u)
+    else:
+        mid = rng.choice(heads)
+        s = '{[#A][#B][#C]}.{#A=%s[$],#B=[$]%s/C=C/[$],#C=[$]/C=C/%s}' % (rng.choice(['CC', 'OC', 'C']), mid, rng.choice(['C', 'CC', 'Cl']))
+    return {'kind': 'ez-units', 's': s, 'all_atom': True, 'legacy': True}
+
+
+def ion_case(rng):
+    """molecular ions and charged single atoms that are not bonded to anything (zero-order connection, or a descriptor
+    that stays unused): they get the hydrogens their charge state asks for, like every other atom"""
+    ion = rng.choice(['[NH4+]', '[OH3+]', '[Cl-]', '[Na+]', '[F-]', '[$][O-]', '[$][NH3+]', '[$][S-]'])
+    body = rng.choice(['{[#P]|2.[#ION]}.{#P=[$]COC[$],#ION=%s}', '{[#AC].[#ION]}.{#AC=CC(=O)[O-],#ION=%s}',
+                       '{[#ION].[#P][#P]}.{#P=[>]CC[<],#ION=%s}', '{[#AA]|3}.{#AA=[>]CC[<]C(=O)[O-].%s}',
+                       '{[#W].[#ION].[#W]}.{#W=O,#ION=%s}'])
+    if '[$]' in ion and '#AA=' in body:
+        ion = '[NH4+]'
+    return {'kind': 'ions', 's': body % ion, 'all_atom': True, 'legacy': True}
+
+
 def run(ctx):
     rng = ctx.rng('resolve')
     for i in range(ctx.budget(450, 8000)):
@@ -85,6 +111,12 @@ def run(ctx):
             from props import c03
             case = c03.scarce_case(rng)
             ctx.feature('hydrogen-unit')
+        elif i % 9 == 1:
+            case = ez_unit_case(rng)
+            ctx.feature('ez-mark-before-closing-descriptor')
+        elif i % 9 == 2:
+            case = ion_case(rng)
+            ctx.feature('unbonded-ion')
         elif r == 0:
             case = gen_mol.cut_case(rng, share_p=0.0, anno_p=rng.choice([0, 0.3]))
         elif r == 1:
